@@ -651,6 +651,16 @@ func rC18TableWriters(w *World, r *Report) {
 	n := 0
 	for _, fn := range w.Funcs {
 		eachInstr(fn, func(in ssa.Instruction) {
+			if c, ok := in.(*ssa.Call); ok && calleeBase(c) == "maps.Copy" && len(c.Call.Args) == 2 {
+				// maps.Copy(node.ChildOptions, …): a registration site like the assignment it replaces
+				if _, ok := loadOfField(c.Call.Args[0], fCO); ok {
+					n++
+					name := short(fn)
+					good := name == "(*getoptions.programTree).AddChildOption" || name == "getoptions.copyOptionsFromParent"
+					ru.Check(good, "table-entry/"+name, w.IPos(c), "definition-time registration", name+" adds entries to a node's option table: what a level offers depends on how it was reached (the help routes disagree)")
+				}
+				return
+			}
 			mu, ok := in.(*ssa.MapUpdate)
 			if !ok {
 				return
